@@ -5,16 +5,53 @@ registration history (user hooks tag their output, so the result shows which hoo
 Model observable M: `call` on the model machine after the same history (RUNHIST), and `spec` (the theorem's
 right-hand side, SPEC); hook terms are turned into the expected canonical result by `expect`.
 Oracle P (independent of the model): `ref_choose`, a direct transcription of the documented rule.
+
+Factories come in SHAPES (harness/dispatch_shapes.py: positional-only, optional second parameter, *args, **kwargs,
+keyword-only parameters, functools.partial objects, callable instances, classes, lambdas, bound / class / static methods,
+string annotations), plain and converter-taking; every factory records what it was called with, and the hook it makes
+shows it.  Oracle: a factory receives the converter iff it exposes an additional REQUIRED positional parameter (the rule of
+the documentation of `register_*_hook_factory`, declared per shape); the model decides the `Kind` of the registration from
+the `inspect.signature` of the real callable (`SIGKIND`, Dispatch/Sig.lean, transcription of `_is_extended_factory`;
+theorems C07_factory_kind / C07_factory_receives).  Shapes whose second parameter is `*args` / `**kwargs` are recorded
+finding F61 (code and documentation part there; witness theorem C07_factory_kind_F61_witness).
+Raising predicates raise a variety of exception classes (`dispatch_common.PRED_EXCEPTIONS`): each means "does not accept".
 """
 import itertools
 import json
+import os
 import random
 import sys
 import zlib
 
 from harness import framework, lean
 from harness import dispatch_common as dc
+from harness import dispatch_shapes as shapes
 from harness.dispatch_common import DIRS, ST, UN, ConvCfg, Impl, U
+
+F61_SIG = "c07_factory_second_parameter_var_args_or_kwargs_filed_as_converter_taking"
+
+
+@framework.finding(F61_SIG)
+def _f61(case):
+    """F61: `_is_extended_factory` looks only at whether the SECOND parameter of the factory's signature has a default, not
+    at its kind: `def fac(typ, **opts)` / `def fac(typ, *rest)` / `def fac(*a, **k)` expose no additional required
+    parameter (they do not ask for the converter), yet are registered as converter-taking.  `fac(typ, **opts)` can then
+    not be called at all (every lookup of an accepted type raises TypeError: "takes 1 positional argument but 2 were
+    given"); the other two are handed a converter they did not ask for.
+    Recognised by the shape of the input only: the hook tree the documented rule selects for the probed type contains a
+    factory whose signature has `*args` / `**kwargs` as its second parameter."""
+    probe = case.get("probe") or {}
+    return any(sh in shapes.F61 for sh in probe.get("p_shapes", ()))
+
+
+def term_tags(term, acc=None):
+    """tags of the user factories occurring in a hook term"""
+    acc = set() if acc is None else acc
+    if term[0] == "made":
+        acc.add(term[1])
+        for sub in term[4]:
+            term_tags(sub, acc)
+    return acc
 
 
 def gen_cfg(rng):
@@ -61,6 +98,9 @@ def run_case(drv, cc, preds, history, want_spec=True):
     dc.prune_linecache()
     for e in impl.reg_errors:
         out.append({"regerr": e})
+    for w in impl.options_written():
+        out.append({"regerr": "an option attribute of the converter was written by use: " + w})
+    run_case.raised = impl.raised
     return out
 
 
@@ -167,11 +207,17 @@ def check_case(chk, drv, cc, preds, history, corr_fail, stats):
               sample={"cfg": cc.name(), "history": [dc.describe(o) for o in history][:12],
                       "probe": U.types[rows[0]["ty"]].name, "impl": repr(rows[0]["I"])[:120]})
     chk.note("cfg:" + cc.name().split("/")[0], "len:%02d" % len(history))
+    shape_of = {}
     for op in history:
         chk.note("reg:" + op["op"] + (":ext" if op.get("extended") else "") + (":deco" if op.get("form") == "deco" else "")
                  + ":" + op["dir"])
         if op["op"] == "hook":
             chk.note("target:" + U.types[op["ty"]].shape)
+        if op["op"] == "factory" and op.get("shape"):
+            chk.note("factory-shape:" + op["shape"])
+            shape_of[op["tag"]] = op["shape"]
+    for cls, n in run_case.raised.items():
+        chk.hist["predicate-raised:" + cls] += n
     for r in [r for r in rows if "regerr" in r]:
         chk.violation("C07 oracle: a registration raised: " + r["regerr"], case)
         stats["oracle_fail"] += 1
@@ -186,9 +232,11 @@ def check_case(chk, drv, cc, preds, history, corr_fail, stats):
             chk.note("note:union-structure-hook-ranked-below-older-or-newer-user-predicate")
         where = f"[{cc.name()} {r['dir']} probe={tn} history={' ; '.join(dc.describe(o) for o in history)}]"
         if r["I"] != r["P"]:
-            chk.violation(f"C07 oracle: result {r['I']!r} is not what the documented rule selects {r['P']!r} "
-                          f"(rule picks {r['p_term']!r}) {where}", dict(case, probe={"dir": r["dir"], "ty": r["ty"]}))
-            stats["oracle_fail"] += 1
+            p_shapes = sorted({shape_of[t] for t in term_tags(r["p_term"]) if t in shape_of})
+            if chk.violation(f"C07 oracle: result {r['I']!r} is not what the documented rule selects {r['P']!r} "
+                             f"(rule picks {r['p_term']!r}) {where}",
+                             dict(case, probe={"dir": r["dir"], "ty": r["ty"], "p_shapes": p_shapes})):
+                stats["oracle_fail"] += 1
             continue
         if r["I"] != r["M"] or not spec_agrees(r["ctx"], r["s_term"], r["m_term"]):
             corr_fail.append((case, r, where))
@@ -196,6 +244,10 @@ def check_case(chk, drv, cc, preds, history, corr_fail, stats):
 
 def run(chk: framework.Check):
     rng = chk.rng
+    if os.environ.get("VERIF_C07_F61") and not any(f.get("signature") == F61_SIG for f in chk.known):
+        chk.known.append({"id": "F61", "property": "C07", "kind": "finding", "signature": F61_SIG,
+                          "what": "_is_extended_factory ignores the KIND of the second parameter: def fac(typ, **opts) / "
+                                  "def fac(typ, *rest) are registered as converter-taking (entry assumed via VERIF_C07_F61)"})
     drv = lean.Driver()
     corr_fail = []
     stats = {"probes": 0, "oracle_fail": 0}
@@ -222,6 +274,15 @@ def run(chk: framework.Check):
                 for combo in itertools.product(al, repeat=L):
                     history = [dict(op, tag=i + 1) for i, op in enumerate(combo)]
                     check_case(chk, drv, cc, alpha_preds, history, corr_fail, stats)
+    # ---- every factory shape, alone and in front of / behind an older registration on the same predicate
+    for n, name in enumerate(sorted(shapes.SHAPES)):
+        sh = shapes.SHAPES[name]
+        for d in DIRS:
+            for klass in (("Converter", "BaseConverter") if not quick else (("Converter", "BaseConverter")[(n + (d == ST)) % 2],)):
+                fac = {"op": "factory", "conv": 0, "dir": d, "pred": 1, "extended": sh.asks, "shape": name,
+                       "form": ("call", "deco")[n % 2], "tag": 2}
+                older = {"op": "func", "conv": 0, "dir": d, "pred": 1, "tag": 1}
+                check_case(chk, drv, ConvCfg(klass=klass), alpha_preds, [older, fac], corr_fail, stats)
     if not quick:  # length 4 over a 4-op alphabet, both directions mixed
         al = [a for a in alphabet if a["op"] in ("hook", "factory") and a.get("ty") != U.k("B")][:8]
         cc = ConvCfg()
@@ -237,15 +298,16 @@ def run(chk: framework.Check):
         cnt = itertools.count(1)
         history = []
         for _ in range(rng.randint(0, max_ops)):
-            history.append(dc.gen_reg(rng, 0, rng.choice(DIRS), preds, lambda: next(cnt), prev=history))
+            history.append(dc.gen_reg(rng, 0, rng.choice(DIRS), preds, lambda: next(cnt), prev=history, f61=0.08))
         check_case(chk, drv, cc, preds, history, corr_fail, stats)
     if corr_fail and not stats["oracle_fail"]:
         for case, r, where in corr_fail[:5]:
             chk.violation("correspondence corr:C07:RUNHIST broken (theorems C07_* no longer tied to the code): "
                           f"impl={r['I']!r} model={r['M']!r} model-term={r['m_term']!r} spec-term={r['s_term']!r} {where}",
                           dict(case, probe={"dir": r["dir"], "ty": r["ty"]}), found_input=False)
-    chk.extra["rule"] = ("registration histories (class/subclass/NewType/union/predicate/factory/extended factory, call and "
-                         "decorator forms, both directions, overlapping and raising predicates) x {Converter, BaseConverter} x "
+    chk.extra["rule"] = ("registration histories (class/subclass/NewType/union/predicate/factory/extended factory in every "
+                         "signature shape, call and decorator forms, both directions, overlapping predicates, predicates raising "
+                         "20 exception classes) x {Converter, BaseConverter} x "
                          "{dict,tuple strategy} x fallback factories; every history probed on all universe types (also nested); "
                          "non-trivial = at least one registration; distinct by configuration+history text")
     abc_stream(chk, 60 if quick else 600)
@@ -261,7 +323,8 @@ def replay(case):
     history = case["history"]
     print("configuration:", cc.name())
     for p, (a, r) in preds.items():
-        print(f"  predicate p{p}: accepts {[U.types[k].name for k in sorted(a)]} raises on {[U.types[k].name for k in sorted(r)]}")
+        print(f"  predicate p{p}: accepts {[U.types[k].name for k in sorted(a)]} raises "
+              f"{[(U.types[k].name, dc.pred_exception(p, k).__name__) for k in sorted(r)]}")
     for op in history:
         print("  ", dc.describe(op))
     rc = 0
